@@ -93,6 +93,9 @@ func (n *Node) src(sb *strings.Builder) {
 			f.Node.src(sb)
 		}
 		sb.WriteString("})")
+		if n.Embed != 0 && len(n.Fields) >= 2 {
+			fmt.Fprintf(sb, "/*destination type: every second field is promoted from an embedded struct (%s)*/", []string{"", "*EmbA", "EmbA", "*EmbA, *EmbA.*EmbB"}[n.Embed])
+		}
 		if n.Derive != 0 {
 			fmt.Fprintf(sb, "/*then replaced by %s*/", []string{"", "s.Pick(all keys...)", "s.Omit()", "s.Extend(z.Schema{})", "s.Pick(map of all keys)", "base.Extend({first primitive field: the real field}) where base held a stand-in there and was used once"}[n.Derive])
 		}
